@@ -9,9 +9,9 @@ Transcribed
   by `removeHandler` / `Topic.close`) closes the channel and WAITS until the goroutine has handled everything that is
   still queued — so deregistering or replacing a handler drains its queue synchronously (as repaired by a7b01dd the
   caller holds no service lock meanwhile).
-* `Topic.collect` (as repaired by 1a56c16: ONE step under the topic's collect mutex): store the state — the previous
+* `Topic.collect` (as repaired by 800c4eb: ONE step under the topic's collect mutex): store the state — the previous
   state of the id becomes the event's `previousState` when there is one — and queue the event on every handler of
-  the topic. `collectOn` below. (`updOnly` / `enqOnly` are the two halves the code before 1a56c16 locked separately;
+  the topic. `collectOn` below. (`updOnly` / `enqOnly` are the two halves the code before 800c4eb locked separately;
   they are used only by the counterexample `nonatomic_collect_breaks_prev_chain`.)
 * `publishHandler.Handle` (behind `matchHandler`): if the match expression holds for the event as the topic handed
   it over, `Service.Collect` on every target, synchronously on the handler's goroutine, in the order of the spec's
